@@ -29,9 +29,19 @@ pub struct Unit {
 }
 
 pub fn units() -> Vec<Unit> {
+    units_over(false)
+}
+
+/// `wide`: EVERY consonant the layout can type (khanda-ta excepted: it takes neither signs nor conjuncts) as the
+/// single consonant, as the first and as the second member of a two-consonant conjunct with ka, and under the
+/// ro-fola / zo-fola / reph keys - the rules must not depend on which consonant carries the sign.
+pub fn units_over(wide: bool) -> Vec<Unit> {
     let inv = layout_inverse(Layout::Synthetic);
     let k = |v: &str| -> K { *inv.get(v).unwrap_or_else(|| panic!("synthetic layout lacks {v:?}")) };
-    let cons = [("\u{0995}", k("\u{0995}")), ("\u{09B0}", k("\u{09B0}")), ("\u{09B8}", k("\u{09B8}"))];
+    let mut all: Vec<(String, K)> = inv.iter().filter(|(v, _)| v.chars().count() == 1 && v.chars().all(|c| model::is_consonant(c) && c != model::KHANDA_TA)).map(|(v, key)| (v.clone(), *key)).collect();
+    all.sort();
+    let narrow = [("\u{0995}".to_string(), k("\u{0995}")), ("\u{09B0}".to_string(), k("\u{09B0}")), ("\u{09B8}".to_string(), k("\u{09B8}"))];
+    let cons: Vec<(String, K)> = if wide { all } else { narrow.to_vec() };
     let has = k("\u{09CD}");
     let rofola = k(model::ROFOLA);
     let zofola = k(model::ZOFOLA);
@@ -55,7 +65,19 @@ pub fn units() -> Vec<Unit> {
         ("au/lm", vec![au], vec![e], vec![lm], true),
     ];
     let mut clusters: Vec<(String, Vec<K>, usize)> = vec![];
-    for a in &cons {
+    if wide {
+        let ka = k("\u{0995}");
+        for a in &cons {
+            clusters.push((a.0.to_string(), vec![a.1], 1));
+            clusters.push((format!("{}+ro", a.0), vec![a.1, rofola], 2));
+            clusters.push((format!("{}+zo", a.0), vec![a.1, zofola], 2));
+            clusters.push((format!("reph+{}", a.0), vec![reph, a.1], 2));
+            clusters.push((format!("{}+ka", a.0), vec![a.1, has, ka], 2));
+            clusters.push((format!("ka+{}", a.0), vec![ka, has, a.1], 2));
+            clusters.push((format!("{}+ka+zo", a.0), vec![a.1, has, ka, zofola], 3));
+        }
+    }
+    for a in cons.iter().filter(|_| !wide) {
         clusters.push((a.0.to_string(), vec![a.1], 1));
         clusters.push((format!("{}+ro", a.0), vec![a.1, rofola], 2));
         clusters.push((format!("{}+zo", a.0), vec![a.1, zofola], 2));
@@ -126,7 +148,7 @@ fn type_keys(ctx: &Ctx, ks: &[K], case: &dyn Fn() -> Value) -> Result<String, Fa
 /// Differential check of one word (a list of unit indices) + side clauses.
 fn check_word(pair: &Pair, us: &[Unit], word: &[usize], st: &mut Stats, bits: u32) -> Result<(), Failure> {
     let desc = || word.iter().map(|i| us[*i].desc.clone()).collect::<Vec<_>>().join(" ");
-    let case = || json!({"option_bits": bits, "word": word, "desc": desc()});
+    let case = || json!({"option_bits": bits, "word": word, "desc": desc(), "unit_count": us.len()});
     let pf = |p: crate::driver::PanicInfo| Failure::new(panic_kind(&p), p.to_string(), case());
     pair.off.finish().map_err(pf)?;
     pair.on.finish().map_err(pf)?;
@@ -200,7 +222,30 @@ fn mk_pair(bits: u32, sb: &Sandbox) -> Result<Pair, Failure> {
     Ok(Pair { off: Ctx::new(off, sb).map_err(e)?, on: Ctx::new(on, sb).map_err(e)? })
 }
 
+fn wide_pass(run: &Run) {
+    let us = units_over(true);
+    let n = us.len();
+    let vowel_unit = 0usize; // the independent vowel (first of the three non-syllable units)
+    let items: Vec<(u32, usize)> = (0..8u32).flat_map(|b| (0..16usize).map(move |c| (b, c))).collect();
+    run.exhaustive(
+        "every-consonant-of-the-layout-as-carrier-and-in-conjuncts",
+        &items,
+        |_| Sandbox::new(),
+        |&(bits, chunk), st, sb| {
+            let pair = mk_pair(bits, sb)?;
+            for i in (0..n).filter(|i| i % 16 == chunk) {
+                st.evals(2);
+                check_word(&pair, &us, &[i], st, bits)?;
+                check_word(&pair, &us, &[vowel_unit, i], st, bits)?;
+            }
+            st.label("wide-consonant-pass");
+            Ok(())
+        },
+    );
+}
+
 pub fn run(run: &Run) {
+    wide_pass(run);
     let us = units();
     let n = us.len();
     let step = run.tier.pick(7, 1);
@@ -252,7 +297,8 @@ pub fn replay(_run: &Run, case: &Value) -> Result<(), Failure> {
     let word: Vec<usize> = serde_json::from_value(case["word"].clone()).unwrap_or_default();
     let sb = Sandbox::new();
     let pair = mk_pair(bits, &sb)?;
-    let us = units();
+    let wide = units_over(true);
+    let us = if case["unit_count"].as_u64() == Some(wide.len() as u64) { wide } else { units() };
     let mut st = Stats::new();
     check_word(&pair, &us, &word, &mut st, bits)
 }
